@@ -148,4 +148,3 @@ func cmdDump(args []string) {
 		fmt.Println("; note:", n)
 	}
 }
-
